@@ -681,6 +681,24 @@ Lemma example_swap_contents :
   = [Reg (bs "a") (bs "2"); Reg (bs "b") (bs "1"); Fifo (bs "p"); Reg (bs "c") (bs "3")].
 Proof. vm_compute. reflexivity. Qed.
 
+(* ---------- descriptors: bounded by a constant, whatever the width and the depth ---------- *)
+Lemma peak_fds_le_1 : forall n, (peak_fds n <= 1)%nat.
+Proof.
+  induction n using node_ind2; cbn [peak_fds]; try lia.
+  assert (Hm : (fold_right (fun c m => Nat.max (peak_fds c) m) 0 ch <= 1)%nat).
+  { induction H as [|x l Hx Hl IH]; cbn [fold_right]; lia. }
+  lia.
+Qed.
+
+Lemma peak_fds_listing : forall ch, Forall (fun c => (peak_fds c <= 1)%nat) ch.
+Proof. intros ch. apply Forall_forall. intros c _. apply peak_fds_le_1. Qed.
+
+Lemma deferred_close_unbounded :
+  peak_fds (Dir (bs "d") (wide_listing 300)) = 1%nat /\
+  peak_fds_deferred (Dir (bs "d") (wide_listing 300)) = 300%nat /\
+  peak_fds_deferred (Dir (bs "d") (wide_listing 40 ++ [Dir (bs "s") (wide_listing 40)])) = 80%nat.
+Proof. vm_compute. repeat split; reflexivity. Qed.
+
 (* ---------- refusals ---------- *)
 (* arguments that are regular files are reported, then the first directory without -r
    (or the first path that does not exist) ends the run with status 1 *)
